@@ -117,6 +117,24 @@ def check_verify(case):
     cands = [('valid', r, s), ('twin', r, n - s), ('other-digest', r2, s2), ('r0', 0, s), ('s0', r, 0), ('rn', n, s), ('sn', r, n),
              ('r+n', r + n, s), ('random', rr % n or 1, ss % n or 1), ('s+n', r, s + n)]
     cls = ['verify']
+    # signatures with SHORT components (1..31-byte r and s, DER of 8..40 bytes): no signer produces them for a given key, but
+    # for chosen (r, s) the key Q = r^-1 (s R - z G) makes them valid - and the verifier must say so
+    for r_small, s_small in case.get('short', []):
+        Rq = secp.lift_x(r_small, 0)
+        if Rq is None or not (0 < s_small < n):
+            continue
+        Q = secp.recover(z, r_small, s_small, 0)
+        if Q is None:
+            continue
+        assert secp.verify(Q, z, r_small, s_small)
+        for comp_ in (True, False):
+            qk = libx.call('pubkey', CPubKey, secp.ser_pub(Q, comp_))[1]
+            if libx.call('verify-short', qk.verify, z, secp.der(r_small, s_small))[1] is not True:
+                raise Violation('verify/short-signature-rejected', 'CPubKey.verify rejects the valid signature (r=%#x, s=%#x), DER of %d bytes' % (
+                    r_small, s_small, len(secp.der(r_small, s_small))))
+            if libx.call('verify-short', qk.verify, z, secp.der(r_small, s_small + 1 if s_small + 1 < n else 1))[1] is not False:
+                raise Violation('verify/short-signature-accepted', 'CPubKey.verify accepts (r, s+1) for the crafted key')
+        cls.append('short-sig:%d' % len(secp.der(r_small, s_small)))
     # byte strings that are not a DER SEQUENCE of two INTEGERs under any reading (empty, cut short, wrong tags): never accepted
     good = secp.der(r, s)
     for tag, junk in (('empty', b''), ('cut1', good[:-1]), ('cut-half', good[:len(good) // 2]), ('tag31', b'\x31' + good[1:]),
@@ -160,6 +178,9 @@ digests = st.one_of(st.sampled_from([bytes(32), b'\xff' * 32, n.to_bytes(32, 'bi
                     st.binary(min_size=32, max_size=32), st.integers(n, 2 ** 256 - 1).map(lambda v: v.to_bytes(32, 'big')))
 
 
+SMALL_X = [x_ for x_ in range(1, 40) if secp.lift_x(x_, 0) is not None]
+
+
 @st.composite
 def s_key(draw):
     return {'kind': 'key', 'secret': draw(secrets), 'compressed': draw(st.booleans()), 'chain': draw(st.sampled_from(libx.CHAINS))}
@@ -174,7 +195,9 @@ def s_sign(draw):
 def s_verify(draw):
     return {'kind': 'verify', 'secret': draw(secrets), 'compressed': draw(st.booleans()), 'hybrid': draw(st.integers(0, 5)) == 0,
             'digest': draw(digests).hex(), 'digest2': draw(st.binary(min_size=32, max_size=32)).hex(),
-            'rand': [draw(st.integers(1, n - 1)), draw(st.integers(1, n - 1))]}
+            'rand': [draw(st.integers(1, n - 1)), draw(st.integers(1, n - 1))],
+            'short': [[draw(st.sampled_from(SMALL_X)), draw(st.sampled_from([1, 2, 127, 128, 255, 256, 2 ** 64, 2 ** 127 - 1, 2 ** 248 - 1]))] for _ in range(2)] +
+                     [[draw(st.sampled_from(SMALL_X)) << draw(st.sampled_from([0, 0, 8, 64, 120])), draw(st.integers(1, 2 ** 128))]]}
 
 
 @st.composite
@@ -182,7 +205,16 @@ def s_pub(draw):
     x = draw(secrets)
     P = secp.mul(x, secp.G)
     k = draw(st.sampled_from(['std', 'std', 'hybrid', 'hybrid-wrong-parity', 'compressed-wrong-parity-is-other-point', 'no-sqrt', 'offcurve',
-                              'x>=p', 'y>=p', 'len32', 'len34', 'len64', 'len66', 'flipbit']))
+                              'x>=p', 'y>=p', 'len32', 'len34', 'len64', 'len66', 'flipbit', 'x-in-n..p', 'x-tiny', 'x-near-p']))
+    if k in ('x-in-n..p', 'x-tiny', 'x-near-p'):
+        # points whose x coordinate lies in [n, p) (larger than the group order), is tiny, or sits just below p: all on the curve
+        xx = {'x-in-n..p': n, 'x-tiny': 1, 'x-near-p': secp.p - 2000}[k] + draw(st.integers(0, 900))
+        while secp.lift_x(xx, 0) is None:
+            xx += 1
+        Q = secp.lift_x(xx, draw(st.integers(0, 1)))
+        form = draw(st.sampled_from(['c', 'u', 'h']))
+        b = secp.ser_pub(Q, form == 'c') if form != 'h' else bytes([6 + (Q[1] & 1)]) + secp.ser_pub(Q, False)[1:]
+        return {'kind': 'pubvalid', 'pub': b.hex(), 'cls': k}
     u = secp.ser_pub(P, False)
     c = secp.ser_pub(P, True)
     if k == 'std':
